@@ -1819,6 +1819,12 @@ pub struct RunResult {
 
 /// One simulated run: everything is a function of `run_seed`.
 pub fn run_one(prop: Prop, run_seed: u64, thorough: bool, stats: &mut Stats) -> RunResult {
+	run_one_observed(prop, run_seed, thorough, stats, &mut |_| {})
+}
+
+/// Same run; `before_step` sees the concrete trace (including the step about to be executed)
+/// before every step. Used to recover the history of a run that never returns.
+pub fn run_one_observed(prop: Prop, run_seed: u64, thorough: bool, stats: &mut Stats, before_step: &mut dyn FnMut(&Trace)) -> RunResult {
 	let mut rng = Rng::new(run_seed);
 	let (init, _sw0) = gen_init(&mut rng, prop, stats);
 	let cfg = draw_cfg(&mut rng, prop, thorough, init.kind);
@@ -1849,6 +1855,7 @@ pub fn run_one(prop: Prop, run_seed: u64, thorough: bool, stats: &mut Stats) -> 
 	for _ in 0..n {
 		let st = gen_step(&mut rng, &cfg, prop, ex.kind(), ex.text());
 		trace.steps.push(st.clone());
+		before_step(&trace);
 		match ex.step(&st, stats) {
 			Outcome::Ok => steps += 1,
 			Outcome::Invalid => {
